@@ -52,7 +52,13 @@ SeqOps == <<
   [n |-> "apply-concat",  ar |-> 1, t |-> "(apply concat (list (list) _1 (list 6)))"],
   [n |-> "map-restfn",    ar |-> 1, t |-> "(map (fn [& r] r) _1)"],
   [n |-> "apply-restfn",  ar |-> 1, t |-> "(apply (fn [& r] r) _1)"],
-  [n |-> "apply-restfn1", ar |-> 1, t |-> "(apply (fn [a & r] r) 0 _1)"] >>
+  [n |-> "apply-restfn1", ar |-> 1, t |-> "(apply (fn [a & r] r) 0 _1)"],
+  \* position-taking builtins applied to the value itself (a list is outside their domain: an error, no binding)
+  [n |-> "update-direct", ar |-> 1, t |-> "(update _1 0 inc)"],
+  [n |-> "assoc-direct",  ar |-> 1, t |-> "(assoc _1 0 4)"],
+  \* an EMPTY window onto the operand's array (it still owns the capacity behind it)
+  [n |-> "subvec-empty",  ar |-> 1, t |-> "(subvec (vec _1) 1 1)"],
+  [n |-> "subvec-end",    ar |-> 1, t |-> "(subvec (vec _1) 3)"] >>
 
 MapOps == <<
   [n |-> "assoc",       ar |-> 1, t |-> "(assoc _1 :b 2)"],
@@ -161,6 +167,11 @@ SeqStep(op, hp, ha, hb) ==
     [] op = "map-restfn" -> {[heap |-> hp, h |-> Hdr("list", 0, 0, 0, 0)]}   \* a list of lists: outside the integer heap
     [] op = "apply-restfn" -> Fresh(hp, "list", xs)
     [] op = "apply-restfn1" -> Fresh(hp, "list", xs)
+    [] op \in {"update-direct", "assoc-direct"} ->
+         IF ha.k = "vec" /\ n >= 1 THEN Fresh(hp, "vec", [xs EXCEPT ![1] = IF op = "assoc-direct" THEN 4 ELSE @ + 1])
+         ELSE {[heap |-> hp, h |-> Hdr("list", 0, 0, 0, 0)]}          \* an error: nothing is bound, nothing changes
+    [] op = "subvec-empty" -> IF n >= 1 THEN Share(hp, ha, "vec", 1, 1) ELSE {}
+    [] op = "subvec-end" -> IF n = 3 THEN Share(hp, ha, "vec", 3, 3) ELSE {}
 
 Init ==
   /\ hist = <<>> /\ danger = FALSE
@@ -189,7 +200,7 @@ Do(k, a, b) ==
        /\ UNCHANGED <<seed, heap, danger>>
 
 \* the operations that return a window onto their operand's array or append to it (and the rest-parameter ones)
-CoreNames == {"conj", "conj2", "concat", "concat-lit", "subvec", "subvec-tail", "rest", "vec", "seq", "with-meta",
+CoreNames == {"conj", "conj2", "concat", "concat-lit", "subvec", "subvec-tail", "subvec-empty", "subvec-end", "rest", "vec", "seq", "with-meta",
               "qq-front", "concat3-empty", "concat-empty2", "apply-concat", "map-restfn", "apply-restfn", "apply-restfn1"}
 Step == /\ Len(hist) < MaxLen
         /\ \E k \in {x \in 1..Len(Ops) : ~CoreOnly \/ Family = "map" \/ Ops[x].n \in CoreNames}, a \in 1..Len(hdr) :
